@@ -548,6 +548,13 @@ def run_check(tier, seed):
             shapes = [rand_shape(r) for _ in range(r.choice([1, 2]))]
         ext_cases.append((stated, shapes, None))
     ext_cases += ecorpus
+    # the supplied proof cites the very name being introduced (alone, or followed by a further step), with a stated
+    # theorem the citation would prove: nothing is installed before the proof has been accepted
+    for stated in THMS + [Thm(FALSE)]:
+        me = 'verif_ext_%d' % len(ext_cases)
+        ext_cases.append((stated, [Shape((0,), 'theorem', me)], 'C02:extend-self-citation'))
+        me = 'verif_ext_%d' % len(ext_cases)
+        ext_cases.append((stated, [Shape((0,), 'theorem', me), Shape((1,), 'substitution', Inst(), [(0,)])], 'C02:extend-self-citation'))
     eexprs = []
     for k, (stated, shapes, key) in enumerate(ext_cases):
         thy2 = copy.copy(theory.thy)
@@ -581,6 +588,33 @@ def run_check(tier, seed):
                               dict(stated=sstr(stated), proof=[s.show() for s in shapes],
                                    reproduce='theory.thy.checked_extend([extension.Theorem(name, stated, prf)]).get_axioms()'),
                               key=key or 'C02:extend-unchecked')
+    # a refused extension leaves nothing behind that a later extension could cite
+    n_chain = 0
+    for stated in THMS:
+        for bad in ([Shape((0,), 'sorry', th=stated)], [Shape((0,), 'theorem', 'trueI')], [Shape((0,), 'assume', A)]):
+            thy2 = copy.copy(theory.thy)
+            try:
+                thy2.checked_extend([extension.Theorem('verif_chain_a', stated, build_proof(bad))])
+                continue        # accepted (the proof happened to prove it): not a refused extension
+            except RecursionError:
+                raise
+            except Exception:
+                pass
+            n_chain += 1
+            try:
+                rep = thy2.checked_extend([extension.Theorem('verif_chain_b', stated, build_proof([Shape((0,), 'theorem', 'verif_chain_a')]))])
+                second = not any(n == 'verif_chain_b' for n, _ in rep.get_axioms()) and thy2.has_theorem('verif_chain_b')
+            except RecursionError:
+                raise
+            except Exception:
+                second = False
+            run.count(('ext-chain', g_thm(stated), bad[0].rule), nontrivial=True)
+            if second:
+                run.violation('property', 'after a refused extension for %s, a second extension citing the refused name is admitted as proved' % sstr(stated),
+                              dict(stated=sstr(stated), refused_proof=[s_.show() for s_ in bad], second_proof='0: theorem verif_chain_a',
+                                   reproduce='thy.checked_extend([Theorem(a, stated, bad)]) raises; thy.checked_extend([Theorem(b, stated, cite a)]) must raise too'),
+                              key='C02:extend-refused-leaves-theorem')
+    run.stat('ext_chain_cases:%d' % n_chain)
     ecodes = coq_eval_nats(run.wd, IMPORTS, eexprs, defs=defs, tag='ext', shard=200)
     edis = [(c, e) for c, e, code in zip(ext_cases, eexprs, ecodes) if code != 1]
     run.cov['correspondence_extend'] = dict(cases=len(eexprs), agree=len(eexprs) - len(edis), disagree=len(edis))
